@@ -22,38 +22,61 @@ def posOfName (s : String) : Option Pos := Pos.all.find? (fun p => p.name == s)
 
 def flowName : Flow → String
   | .argToStore => "argToStore" | .storeToStore => "storeToStore"
+  | .storeToCache => "storeToCache" | .cacheToCaller => "cacheToCaller"
   | .storeToCaller => "storeToCaller" | .callerToCaller => "callerToCaller"
 
 def shares (xs ys : List Nat) : Bool := xs.any (ys.contains ·)
 
+/-- which leg of a read is asked about -/
+inductive Leg where
+  | whole   -- from where the caller can see the source (the store, an argument) to the destination
+  | fill    -- store → cache only (a `store → cache` position)
+  | out     -- cache → caller only (a `cache → caller` position)
+  deriving DecidableEq
+
 /-- Run the model on ONE travelling value: a world in which `v` is a stored document (for a
-    position that reads from the store) or an object the caller holds (for a position that takes
-    an argument), one step that sends it through `pos`, then look at the identities.
+    position that reads from the store), a document a cursor has cached (`Leg.out`) or an object
+    the caller holds (for a position that takes an argument), the steps that send it through
+    `pos`, then look at the identities.  A read through a cursor is two steps: the cursor computes
+    its results (`fill`, a `store → cache` position; `findDoc` when the position asked about is a
+    `cache → caller` one) and hands them out (`read`, a `cache → caller` position; `cursorOut` when
+    the position asked about is a `store → cache` one).
     Answer: `alias|fresh` (does the destination share a container with the source),
-    `sep|nosep` (does `Sep` hold afterwards), `safe|unsafe` (is the step covered by the
+    `sep|nosep` (does `Sep` hold afterwards), `safe|unsafe` (are the steps covered by the
     theorem). -/
-def flowAnswer (T : Table) (pos : Pos) (v : Val) : List String :=
+def flowAnswer (T : Table) (leg : Leg) (pos : Pos) (v : Val) : List String :=
   let hv := ofVal v 0
-  let fromStore := pos.flow == .storeToCaller || pos.flow == .storeToStore
-  let w : World := if fromStore then ⟨[hv.1], [], hv.2⟩ else ⟨[], [hv.1], hv.2⟩
-  let s : Step :=
-    match pos.flow with
-    | .storeToCaller => .read [.piece pos (.store 0 [])]
-    | .callerToCaller => .read [.piece pos (.held 0 [])]
-    | .storeToStore => .write [] [] [(.piece pos (.store 0 []), .insertArg)] []
-    | .argToStore =>
-      if pos.final then .write [] [] [(.piece pos (.held 0 []), .insertArg)] []
-      else .write [] [] [(.piece pos (.held 0 []), .upsertInsert)] []
-  let w' := step T w s
+  let inStore : World := ⟨[hv.1], [], [], hv.2⟩
+  let inCache : World := ⟨[], [], [hv.1], hv.2⟩
+  let inHeld : World := ⟨[], [hv.1], [], hv.2⟩
+  -- the world the value starts in, the steps, and where the destination is
+  -- (0 = new held objects, 1 = store beyond the first document, 2 = whole store, 3 = cache)
+  let plan : World × List Step × Nat :=
+    match pos.flow, leg with
+    | .storeToCache, .fill => (inStore, [.fill [.piece pos (.store 0 [])]], 3)
+    | .storeToCache, _ =>
+      (inStore, [.fill [.piece pos (.store 0 [])], .read [.piece .cursorOut (.cache 0 [])]], 0)
+    | .cacheToCaller, .out => (inCache, [.read [.piece pos (.cache 0 [])]], 0)
+    | .cacheToCaller, _ =>
+      (inStore, [.fill [.piece .findDoc (.store 0 [])], .read [.piece pos (.cache 0 [])]], 0)
+    | .storeToCaller, _ => (inStore, [.read [.piece pos (.store 0 [])]], 0)
+    | .callerToCaller, _ => (inHeld, [.read [.piece pos (.held 0 [])]], 0)
+    | .storeToStore, _ => (inStore, [.write [] [] [(.piece pos (.store 0 []), .insertArg)] []], 1)
+    | .argToStore, _ =>
+      (inHeld, [if pos.final then .write [] [] [(.piece pos (.held 0 []), .insertArg)] []
+                else .write [] [] [(.piece pos (.held 0 []), .upsertInsert)] []], 2)
+  let w := plan.1
+  let w' := run T w plan.2.1
   let src := hv.1.ids
   let dst : List Nat :=
-    match pos.flow with
-    | .storeToCaller | .callerToCaller => idsL w'.held |>.drop (idsL w.held).length
-    | .storeToStore => idsL (w'.store.drop 1)
-    | .argToStore => idsL w'.store
+    match plan.2.2 with
+    | 0 => idsL w'.held |>.drop (idsL w.held).length
+    | 1 => idsL (w'.store.drop 1)
+    | 2 => idsL w'.store
+    | _ => idsL w'.cache
   [ (if shares src dst then "alias" else "fresh"),
     (if decide (Sep w') then "sep" else "nosep"),
-    (if s.safe T w then "safe" else "unsafe") ]
+    (if safeRun T w plan.2.1 then "safe" else "unsafe") ]
 
 def showFlows (l : List FieldFlow) : List String :=
   l.map (fun f => f.key.toUTF8.foldl (fun acc b => (acc.push (hexDigit (b.toNat / 16))).push (hexDigit (b.toNat % 16))) "S"
@@ -62,6 +85,8 @@ def showFlows (l : List FieldFlow) : List String :=
 /-- commands:
     `c07 table`                      → every row of the table and every operation's rows
     `c07 flow <pos> <value>`         → `alias|fresh sep|nosep safe|unsafe`
+    `c07 fill <pos> <value>`         → the same for the store → cache leg alone
+    `c07 out <pos> <value>`          → the same for the cache → caller leg alone
     `c07 proj <projection|_> <doc>`  → `<key>=<pos>[/e] …` or `!Error` -/
 def handleC07 (ts : List String) : Option (List String) :=
   match ts with
@@ -74,7 +99,15 @@ def handleC07 (ts : List String) : Option (List String) :=
             ++ ":" ++ (if o.copying copyDiscipline then "copying" else "aliasing")))
   | "c07" :: "flow" :: p :: r =>
     match posOfName p, parseVal r with
-    | some pos, some (v, []) => some (flowAnswer copyDiscipline pos v)
+    | some pos, some (v, []) => some (flowAnswer copyDiscipline .whole pos v)
+    | _, _ => some ["?parse"]
+  | "c07" :: "fill" :: p :: r =>
+    match posOfName p, parseVal r with
+    | some pos, some (v, []) => some (flowAnswer copyDiscipline .fill pos v)
+    | _, _ => some ["?parse"]
+  | "c07" :: "out" :: p :: r =>
+    match posOfName p, parseVal r with
+    | some pos, some (v, []) => some (flowAnswer copyDiscipline .out pos v)
     | _, _ => some ["?parse"]
   | "c07" :: "proj" :: r =>
     match parseOpt r with
